@@ -4,16 +4,16 @@
 (* harness can turn the explored graph into concrete call paths; KIND lines  *)
 (* carry the per-kind tables (methods, attribute universe, caller arrays).   *)
 EXTENDS Lifecycle
-Abs(d) == <<{a \in DOMAIN d : d[a] = "Def"}, {a \in DOMAIN d : d[a] = "Stale"}>>
+Abs(d, e) == <<{a \in DOMAIN d : d[a] = "Def"}, {a \in DOMAIN d : d[a] = "Stale"}, e>>
 EmitInit == /\ Init
             /\ PrintT(<<"KIND", kind, Methods(kind), Universe(kind),
-                        [m \in Methods(kind) |-> Touches(kind, m)], Abs(derived), ckey>>)
+                        [m \in Methods(kind) |-> Touches(kind, m)], Abs(derived, defn), ckey>>)
 EmitNext == /\ n < MaxLen
             /\ n' = n + 1
             /\ \E m \in Methods(kind) :
                  /\ Call(m)
-                 /\ PrintT(<<"EDGE", kind, Abs(derived), ckey, m, last'.out, last'.attr,
-                             Abs(derived'), ckey',
+                 /\ PrintT(<<"EDGE", kind, Abs(derived, defn), ckey, m, last'.out, last'.attr,
+                             Abs(derived', defn'), ckey',
                              Explains(kind, m, AsState(last'), AllDeviations)>>)
 EmitSpec == EmitInit /\ [][EmitNext]_vars
 ASSUME TablesConsistent
